@@ -64,10 +64,10 @@ theorem pdb_atom_roundtrip_el (excl : List (List Char)) (serial : Nat) (a : Atom
     | none => rw [hf] at hel; simp at hel
     | some c =>
       rcases halt with halt | halt <;>
-        simp [pdbAtomOfProps, Props.str, Props.int, Props.dec, Props.get, List.find?, halt, hex, he, hf, firstAlpha,
+        simp [pdbAtomOfProps, Props.isNan, Props.str, Props.int, Props.dec, Props.get, List.find?, halt, hex, he, hf, firstAlpha,
           bind, Except.bind, pure, Except.pure]
   · rcases halt with halt | halt <;>
-      simp [pdbAtomOfProps, Props.str, Props.int, Props.dec, Props.get, List.find?, halt, hex, he, bind, Except.bind,
+      simp [pdbAtomOfProps, Props.isNan, Props.str, Props.int, Props.dec, Props.get, List.find?, halt, hex, he, bind, Except.bind,
         pure, Except.pure]
 
 theorem atomFitsB_reads (excl : List (List Char)) (serial : Nat) (a : Atom) (h : atomFitsB excl serial a = true) :
@@ -189,13 +189,14 @@ def atomReadableB (excl : List (List Char)) (serial : Nat) (a : Atom) : Bool :=
    | _ => false) &&
   (atomLine pdb serial a).all (· ≠ '#')
 
-/-- **overflow never corrupts another atom or the molecule division (file level).**  For a system
+/-- (superseded by `pdb_file_overflow_local` in `C16Total`, where readability is proved from the layout
+and the atoms read back are given explicitly)  For a system
 whose atoms are merely readable — fields may overflow in any way — the text of `write_pdb_string`
 is read back with the same number of molecules, the same number of atoms in each, in the same
 order, and the k-th atom read is what the reader makes of the k-th atom's own line: no other
 atom's values enter (`parsedAtomOf` depends on that atom only), and by `pdb_atom_overflow_local`
 it agrees with the atom written on every field that fits. -/
-theorem pdb_file_overflow_local (excl : List (List Char)) (sys : List Mol)
+theorem pdb_file_overflow_of_readable (excl : List (List Char)) (sys : List Mol)
     (h : allSysB (atomReadableB excl) 1 sys = true) :
     ∃ lines r, writePdb pdb false sys = .ok lines ∧ readPdb pdb excl false lines = .ok r ∧
       r.mols = expectedMols (parsedAtomOf excl) 1 sys ∧ r.bonds = [] := by
